@@ -91,3 +91,66 @@ Theorem C13_old_left_open_refuted :
                   count_ev (is_open 0%nat) (read_trace_old steps e).
 Proof. exact read_closed_old_refuted. Qed.
 Print Assumptions C13_old_left_open_refuted.
+
+(* ------------------------------------------------------------------ third pass *)
+(* seeded change A (`continue` before datasets.append(nc)): an external file that holds none of
+   the wanted variables is opened and never closed *)
+Theorem C13_seedA_external_left_open_refuted :
+  count_ev (is_open 1%nat) (xread_trace VSeedA [XScan 1%nat (ScanOk false)] Returns) = 1%nat /\
+  count_ev (is_close 1%nat) (xread_trace VSeedA [XScan 1%nat (ScanOk false)] Returns) = 0%nat.
+Proof. exact xread_seedA_refuted. Qed.
+Print Assumptions C13_seedA_external_left_open_refuted.
+
+(* before fix3-2: a scan of an external file that raises (the file does not exist) leaves the
+   PARENT dataset open, because self.read_vars is still the nested one when file_close runs *)
+Theorem C13_head_failed_scan_left_open_refuted :
+  count_ev (is_open 0%nat) (xread_trace VHead [XScan 1%nat ScanFailBefore] Raises) = 1%nat /\
+  count_ev (is_close 0%nat) (xread_trace VHead [XScan 1%nat ScanFailBefore] Raises) = 0%nat /\
+  xread_trace VFixed [XScan 1%nat ScanFailBefore] Raises = [EvOpen 0%nat; EvClose 0%nat] /\
+  xread_trace VFixed [XScan 1%nat ScanFailAfter] Raises = [EvOpen 0%nat; EvOpen 1%nat; EvClose 1%nat; EvClose 0%nat].
+Proof. exact xread_head_refuted. Qed.
+Print Assumptions C13_head_failed_scan_left_open_refuted.
+
+(* seeded change B (`ok = ncdim in dimensions` at every iteration): a missing dimension in any
+   position but the last is accepted, and the bogus dimension makes the read raise KeyError *)
+Theorem C13_seedB_check_compress_refuted :
+  check_compress_seeded ["lat"; "lon"] ["nope"; "lon"] true = true /\
+  fst (check_compress ["lat"; "lon"] ["nope"; "lon"]) = false.
+Proof. exact check_compress_seeded_refuted. Qed.
+Print Assumptions C13_seedB_check_compress_refuted.
+
+Theorem C13_seedB_read_raises_refuted :
+  let ds := mkAds3 [mkVar "gq" ["landpoint"] false false []] [] ["lat"; "lon"; "landpoint"] in
+  dim_pass ds (expand [("landpoint", ["nope"; "lon"])] ["landpoint"]) = RErr KeyErr.
+Proof. exact seeded_compress_raises. Qed.
+Print Assumptions C13_seedB_read_raises_refuted.
+
+(* before fix3-5: an unresolved reference of a grouped dataset raised KeyError *)
+Theorem C13_head_group_reference_refuted :
+  resolve_head [("lat", "/g/lat")] ["lat"; "REF_NOT_FOUND_nope"] = RErr KeyErr /\
+  resolve [("lat", "/g/lat")] ["lat"; "REF_NOT_FOUND_nope"] = ["/g/lat"; "REF_NOT_FOUND_nope"].
+Proof. exact resolve_head_refuted. Qed.
+Print Assumptions C13_head_group_reference_refuted.
+
+(* before fix3-7: report leakage through _copy_construct *)
+Theorem C13_head_report_leak_refuted :
+  In ("ta", ("lev", 7%nat, false)) (bk_run true [Emit "lev" "orog" 7%nat false; Copy "ta" "orog"] [] []) /\
+  bk_run false [Emit "lev" "orog" 7%nat false; Copy "ta" "orog"] [] [] = [("lev", ("lev", 7%nat, false))].
+Proof. exact bk_head_refuted. Qed.
+Print Assumptions C13_head_report_leak_refuted.
+
+(* before fix3-8: construct leakage through the cache of auxiliary coordinates *)
+Theorem C13_head_aux_cache_refuted :
+  aux_cache_run false [(None, "lat"); (Some "geometry1", "lat")] [] = [("lat", None); ("lat", None)] /\
+  aux_cache_run true [(None, "lat"); (Some "geometry1", "lat")] [] = [("lat", None); ("lat", Some "geometry1")].
+Proof. exact aux_cache_head_refuted. Qed.
+Print Assumptions C13_head_aux_cache_refuted.
+
+(* before fix3-3: a char variable with a foreign leading dimension passed the subset test *)
+Theorem C13_head_char_foreign_refuted :
+  let ds := mkAds [mkVar "label" ["zz"; "strlen"] true false []; mkVar "q" ["lat"] false false []] [] in
+  ncdims ds "label" = ROk ["zz"] /\
+  dims_are_subset_head ds "label" ["zz"] ["lat"] = ROk true /\
+  dims_are_subset ds "label" ["zz"] ["lat"] = ROk false.
+Proof. exact dims_are_subset_head_refuted. Qed.
+Print Assumptions C13_head_char_foreign_refuted.
